@@ -90,7 +90,7 @@ def run(ctx):
                'values compared with rtol 1e-12 (erg/s goes through /d^2 * d^2)', 'float64 arrays (what the objects hold) are stored as float64')
     ctx.require_events('SED.read:post', 'SEDCube.read:post', 'roundtrip:sed', 'roundtrip:cube', 'roundtrip:convolved', 'cube:get_sed', 'roundtrip:sed-object-reused', 'roundtrip:cube-object-reused', 'roundtrip:sed-other-unit', 'cube:get_sed-after-values-reassigned')
     ctx.require_regimes('sed:asc', 'sed:desc', 'cube:asc', 'cube:desc', 'cube:no-unc', 'cube:no-apertures', 'cube:memmap',
-                        'convolved:no-apertures', 'unit:erg/s', 'unit:Jy', 'cube:valid-flags', 'convolved:error-in-another-unit', 'cube:unc-in-another-unit', 'sed:error-in-another-unit', 'cube:axis-unit:nm', 'cube:axis-unit:GHz', 'cube:axis-unit:mm')
+                        'convolved:no-apertures', 'unit:erg/s', 'unit:Jy', 'cube:valid-flags', 'convolved:error-in-another-unit', 'cube:unc-in-another-unit', 'sed:error-in-another-unit', 'cube:axis-unit:nm', 'cube:axis-unit:GHz', 'cube:axis-unit:mm', 'sed:axis-unit:nm', 'sed:axis-unit:GHz', 'sed:axis-unit:mm')
     cfg = list(itertools.product(['asc', 'desc'], ['nu', 'wav'], list(FLUX_UNITS), [True, False], [True, False], [True, False]))
     reps = 1 if ctx.quick else 20
     d = ctx.newdir('c12')
@@ -121,10 +121,18 @@ def run(ctx):
                 s = SED()
                 s.name = 'enc_model'
                 s.distance = float(gen.loguniform(rng, 0.1, 30.0)) * u.kpc
-                if rng.random() < 0.5:
+                sps = int(rng.integers(5))      # how the spectral axis of the SED is supplied
+                if sps == 0:
                     s.wav = wav_in * u.micron
-                else:
+                elif sps == 1:
+                    s.wav = (wav_in * u.micron).to(u.nm)
+                elif sps == 2:
+                    s.wav = (wav_in * u.micron).to(u.mm)
+                elif sps == 3:
                     s.nu = (C_UM_HZ / wav_in) * u.Hz
+                else:
+                    s.nu = ((C_UM_HZ / wav_in) * u.Hz).to(u.GHz)
+                ctx.regime('sed:axis-unit:' + ('micron', 'nm', 'mm', 'Hz', 'GHz')[sps])
                 if with_ap:
                     s.apertures = (aps * u.au).to(apu)
                 s.flux = val[0][:, sl] * funit
